@@ -1,4 +1,5 @@
 import JoblibModel.FuncCode
+import JoblibModel.FuncCodeText
 import JoblibModel.IOUtil
 /-! Driver for C12: a stateful interpreter of histories over `JoblibModel.FuncCode.step`.
 
@@ -17,6 +18,12 @@ import JoblibModel.IOUtil
   damage <dir> <delete|unreadable|other>                                                       → ok
   clearall <dir>             Memory.clear() of a Memory on directory <dir>                     → ok
   fresh                      → ok
+
+Text layer (`JoblibModel.FuncCodeText`; stateless, allowed at any time; a text is its code points in decimal, `-` = empty):
+  text-write <first_line> <cp>*       what `_write_func_code` writes                      → text <cp>*
+  text-extract <cp>*                  `extract_first_line`                                → ok <first_line> <cp>* | valueerror | untracked
+  text-compare <n> <cp>{n} <cp>*      `old_func_code == func_code` for the stored text (first n code points) and the
+                                      live source (the rest)                              → same | changed | unreadable | untracked
 
 Anything else, and any request before the first `reset`, is answered `bad-op`. -/
 open JoblibModel JoblibModel.FuncCode JoblibModel.IOUtil
@@ -54,8 +61,41 @@ def pOp : List String → Option Op
   | ["fresh"] => some .fresh
   | _ => none
 
+def pText : List String → Option FuncCodeText.Text
+  | ["-"] => some []
+  | ts => ts.mapM (·.toNat?)
+
+def showText : FuncCodeText.Text → String
+  | [] => "-"
+  | t => joinSp (t.map toString)
+
+def handleText : List String → Option String
+  | "text-write" :: n :: ts => do
+    let n ← n.toInt?
+    let t ← if ts.isEmpty then some [] else pText ts
+    pure (joinSp ["text", showText (FuncCodeText.writeText n t)])
+  | "text-extract" :: ts => do
+    let t ← if ts.isEmpty then some [] else pText ts
+    match FuncCodeText.extractFirstLine t with
+    | .ok (c, n) => pure (joinSp ["ok", toString n, showText c])
+    | .valueError => pure "valueerror"
+    | .untracked => pure "untracked"
+  | "text-compare" :: n :: ts => do
+    let n ← n.toNat?
+    if ts.length < n then none
+    let stored ← (ts.take n).mapM (·.toNat?)
+    let live ← (ts.drop n).mapM (·.toNat?)
+    match FuncCodeText.compareStored stored live with
+    | .same => pure "same"
+    | .changed => pure "changed"
+    | .unreadable => pure "unreadable"
+    | .untracked => pure "untracked"
+  | _ => none
+
 def handle (s : DS) (line : String) : DS × String :=
   match tokens line with
+  | ts@("text-write" :: _) | ts@("text-extract" :: _) | ts@("text-compare" :: _) =>
+    (s, (handleText ts).getD "bad-op")
   | ["reset", a, b, c, d] =>
     match pBit a, pBit b, pBit c, pBit d with
     | some a, some b, some c, some d => ({ cfg := some ⟨a, b, c, d⟩ }, "ok")
